@@ -104,3 +104,57 @@ Proof.
   rewrite (hdiv_div_scale _ absdet orient Ho Ha). fold s.
   rewrite (Hdiv (qimage B c 3 x)). simpl. unfold qeval. ring.
 Qed.
+
+(* general (multilinear / curved) cells: no inverse map needed.  With J the Jacobian of the cell map at the reference point
+   X (the delivered J is the derivative of F: C10_iso_J_is_derivative_of_F) and B = invDF with B J = I there (C10_iso_inverse_
+   of_delivered_J where det <> 0), the gradient gbasis delivers, g = einsum('ijkl,il->jkl', invDF, dphi), satisfies
+   J^T g = grad_ref phi — the chain rule for phi = u o F — with grad_ref phi the TRUE reference gradient of the value *)
+Theorem h1_general_cell_gradient2 e : In e all_elements -> e_dim e = 2%nat ->
+  forall p grad, In (BH1 p grad) (e_basis e) ->
+  forall (J B : nat -> nat -> Q) (X : nat -> Q),
+    B 0%nat 0%nat * J 0%nat 0%nat + B 0%nat 1%nat * J 1%nat 0%nat == 1 ->
+    B 0%nat 0%nat * J 0%nat 1%nat + B 0%nat 1%nat * J 1%nat 1%nat == 0 ->
+    B 1%nat 0%nat * J 0%nat 0%nat + B 1%nat 1%nat * J 1%nat 0%nat == 0 ->
+    B 1%nat 0%nat * J 0%nat 1%nat + B 1%nat 1%nat * J 1%nat 1%nat == 1 ->
+    forall k, (k < 2)%nat ->
+      J 0%nat k * gen_h1_grad2 B (fun i => qeval (nthp grad i) X) 0%nat + J 1%nat k * gen_h1_grad2 B (fun i => qeval (nthp grad i) X) 1%nat
+      == qeval (pderiv k p) X.
+Proof.
+  intros He Hd p grad Hb J B X H00 H01 H10 H11 k Hk. unfold gen_h1_grad2.
+  
+  assert (E : forall i, (i < 2)%nat -> qeval (nthp grad i) X == qeval (pderiv i p) X) by (intros i Hi; apply (elem_h1_grad e He p grad Hb i); lia).
+  set (g0 := qeval (nthp grad 0) X) in *. set (g1 := qeval (nthp grad 1) X) in *.
+  destruct k as [|[|k]]; [| |lia].
+  - rewrite <- (E 0%nat ltac:(lia)). fold g0. transitivity (g0 * (B 0%nat 0%nat * J 0%nat 0%nat + B 0%nat 1%nat * J 1%nat 0%nat) + g1 * (B 1%nat 0%nat * J 0%nat 0%nat + B 1%nat 1%nat * J 1%nat 0%nat)); [ring|]. rewrite H00, H10. ring.
+  - rewrite <- (E 1%nat ltac:(lia)). fold g1. transitivity (g0 * (B 0%nat 0%nat * J 0%nat 1%nat + B 0%nat 1%nat * J 1%nat 1%nat) + g1 * (B 1%nat 0%nat * J 0%nat 1%nat + B 1%nat 1%nat * J 1%nat 1%nat)); [ring|]. rewrite H01, H11. ring.
+Qed.
+
+(* general (multilinear / curved) cells: no inverse map needed.  With J the Jacobian of the cell map at the reference point
+   X (the delivered J is the derivative of F: C10_iso_J_is_derivative_of_F) and B = invDF with B J = I there (C10_iso_inverse_
+   of_delivered_J where det <> 0), the gradient gbasis delivers, g = einsum('ijkl,il->jkl', invDF, dphi), satisfies
+   J^T g = grad_ref phi — the chain rule for phi = u o F — with grad_ref phi the TRUE reference gradient of the value *)
+Theorem h1_general_cell_gradient3 e : In e all_elements -> e_dim e = 3%nat ->
+  forall p grad, In (BH1 p grad) (e_basis e) ->
+  forall (J B : nat -> nat -> Q) (X : nat -> Q),
+    B 0%nat 0%nat * J 0%nat 0%nat + B 0%nat 1%nat * J 1%nat 0%nat + B 0%nat 2%nat * J 2%nat 0%nat == 1 ->
+    B 0%nat 0%nat * J 0%nat 1%nat + B 0%nat 1%nat * J 1%nat 1%nat + B 0%nat 2%nat * J 2%nat 1%nat == 0 ->
+    B 0%nat 0%nat * J 0%nat 2%nat + B 0%nat 1%nat * J 1%nat 2%nat + B 0%nat 2%nat * J 2%nat 2%nat == 0 ->
+    B 1%nat 0%nat * J 0%nat 0%nat + B 1%nat 1%nat * J 1%nat 0%nat + B 1%nat 2%nat * J 2%nat 0%nat == 0 ->
+    B 1%nat 0%nat * J 0%nat 1%nat + B 1%nat 1%nat * J 1%nat 1%nat + B 1%nat 2%nat * J 2%nat 1%nat == 1 ->
+    B 1%nat 0%nat * J 0%nat 2%nat + B 1%nat 1%nat * J 1%nat 2%nat + B 1%nat 2%nat * J 2%nat 2%nat == 0 ->
+    B 2%nat 0%nat * J 0%nat 0%nat + B 2%nat 1%nat * J 1%nat 0%nat + B 2%nat 2%nat * J 2%nat 0%nat == 0 ->
+    B 2%nat 0%nat * J 0%nat 1%nat + B 2%nat 1%nat * J 1%nat 1%nat + B 2%nat 2%nat * J 2%nat 1%nat == 0 ->
+    B 2%nat 0%nat * J 0%nat 2%nat + B 2%nat 1%nat * J 1%nat 2%nat + B 2%nat 2%nat * J 2%nat 2%nat == 1 ->
+    forall k, (k < 3)%nat ->
+      J 0%nat k * gen_h1_grad3 B (fun i => qeval (nthp grad i) X) 0%nat + J 1%nat k * gen_h1_grad3 B (fun i => qeval (nthp grad i) X) 1%nat + J 2%nat k * gen_h1_grad3 B (fun i => qeval (nthp grad i) X) 2%nat
+      == qeval (pderiv k p) X.
+Proof.
+  intros He Hd p grad Hb J B X H00 H01 H02 H10 H11 H12 H20 H21 H22 k Hk. unfold gen_h1_grad3.
+  
+  assert (E : forall i, (i < 3)%nat -> qeval (nthp grad i) X == qeval (pderiv i p) X) by (intros i Hi; apply (elem_h1_grad e He p grad Hb i); lia).
+  set (g0 := qeval (nthp grad 0) X) in *. set (g1 := qeval (nthp grad 1) X) in *. set (g2 := qeval (nthp grad 2) X) in *.
+  destruct k as [|[|[|k]]]; [| | |lia].
+  - rewrite <- (E 0%nat ltac:(lia)). fold g0. transitivity (g0 * (B 0%nat 0%nat * J 0%nat 0%nat + B 0%nat 1%nat * J 1%nat 0%nat + B 0%nat 2%nat * J 2%nat 0%nat) + g1 * (B 1%nat 0%nat * J 0%nat 0%nat + B 1%nat 1%nat * J 1%nat 0%nat + B 1%nat 2%nat * J 2%nat 0%nat) + g2 * (B 2%nat 0%nat * J 0%nat 0%nat + B 2%nat 1%nat * J 1%nat 0%nat + B 2%nat 2%nat * J 2%nat 0%nat)); [ring|]. rewrite H00, H10, H20. ring.
+  - rewrite <- (E 1%nat ltac:(lia)). fold g1. transitivity (g0 * (B 0%nat 0%nat * J 0%nat 1%nat + B 0%nat 1%nat * J 1%nat 1%nat + B 0%nat 2%nat * J 2%nat 1%nat) + g1 * (B 1%nat 0%nat * J 0%nat 1%nat + B 1%nat 1%nat * J 1%nat 1%nat + B 1%nat 2%nat * J 2%nat 1%nat) + g2 * (B 2%nat 0%nat * J 0%nat 1%nat + B 2%nat 1%nat * J 1%nat 1%nat + B 2%nat 2%nat * J 2%nat 1%nat)); [ring|]. rewrite H01, H11, H21. ring.
+  - rewrite <- (E 2%nat ltac:(lia)). fold g2. transitivity (g0 * (B 0%nat 0%nat * J 0%nat 2%nat + B 0%nat 1%nat * J 1%nat 2%nat + B 0%nat 2%nat * J 2%nat 2%nat) + g1 * (B 1%nat 0%nat * J 0%nat 2%nat + B 1%nat 1%nat * J 1%nat 2%nat + B 1%nat 2%nat * J 2%nat 2%nat) + g2 * (B 2%nat 0%nat * J 0%nat 2%nat + B 2%nat 1%nat * J 1%nat 2%nat + B 2%nat 2%nat * J 2%nat 2%nat)); [ring|]. rewrite H02, H12, H22. ring.
+Qed.
